@@ -1,0 +1,56 @@
+//go:build verif
+
+package starlark
+
+// Verification hooks for property C17 (serialization of compiled programs).
+// Compiled only with -tags verif. Add-only.
+
+import "go.starlark.net/internal/compile"
+
+// Aliases so that code outside this module can name the dump types.
+type (
+	VerifProgram = compile.VerifProgram
+	VerifFuncode = compile.VerifFuncode
+	VerifBinding = compile.VerifBinding
+	VerifConst   = compile.VerifConst
+)
+
+const (
+	VerifSerialVersion = compile.VerifVersion
+	VerifSerialMagic   = compile.VerifMagic
+)
+
+// VerifCompiled returns the compiled form of a program.
+func VerifCompiled(p *Program) *compile.Program { return p.compiled }
+
+// VerifDumpProgram returns a deep copy of every field of the compiled program.
+func VerifDumpProgram(p *Program) *VerifProgram { return compile.VerifDumpProgram(p.compiled) }
+
+// VerifEncodeDump builds a compiled program with exactly the given field
+// values and encodes it with Program.Encode. ok=false if the dump cannot be
+// turned into a program (unknown constant kind, unparsable bigint text).
+func VerifEncodeDump(d *VerifProgram, filename string) (data []byte, ok bool) {
+	p, ok := compile.VerifBuildProgram(d, filename)
+	if !ok {
+		return nil, false
+	}
+	return p.Encode(), true
+}
+
+// VerifProgramFromDump wraps a program built from a dump.
+func VerifProgramFromDump(d *VerifProgram, filename string) (*Program, bool) {
+	p, ok := compile.VerifBuildProgram(d, filename)
+	if !ok {
+		return nil, false
+	}
+	return &Program{p}, true
+}
+
+// VerifDecodeProgram calls compile.DecodeProgram directly (no io.Reader).
+func VerifDecodeProgram(data []byte) (*Program, error) {
+	compiled, err := compile.DecodeProgram(data)
+	if err != nil {
+		return nil, err
+	}
+	return &Program{compiled}, nil
+}
